@@ -65,7 +65,7 @@ outputBufferPairs:
     buffer:
       type: hybridBuffer
       rootPath: ROOT
-      maxBufSize: 1GB
+      maxBufSize: 200KB
     output:
       type: OUTPUTTYPE
       serialization:
@@ -124,6 +124,11 @@ type params struct {
 	singleton     bool          // orchestration type singleton (one pipeline for everything) instead of byKeySet
 	twoPairs      bool          // two output/buffer pairs from the start (out1 under q, out2 under q2)
 	secondHUP     string        // a second SIGHUP with this configuration variant after the first reload has completed
+	sessionMaxAge  time.Duration // maximum session age of the output client (default 30 min): small values make soft reconnects happen
+	pingInterval   time.Duration // defs.ForwarderPingInterval (default 20 s)
+	chunkBytes     int           // byte limit of a Fluentd chunk (default 7 MiB: never reached)
+	queueCap       int           // defs.BufferMaxNumChunksInQueue (default 50)
+	noDir          bool          // the buffer root is unusable (a file is in the way): nothing can be queued on disk
 	idleBeforeStop time.Duration // the driver lets this much virtual time pass before the stop of every generation but the last (cost-free)
 	retryInterval time.Duration // defs.ForwarderRetryInterval (default 10 s): below the 1 s ticker a failed session is followed by the next one within the bound
 	sinkBytes   int // defs.IntermediateBufferMaxTotalBytes (bytes per batch, same two places), default 4 MiB
@@ -151,6 +156,8 @@ type transmit struct {
 }
 
 type world struct {
+	ackedAtReturn2 map[string]bool // second output pair (twoPairs)
+	diskAtReturn2  map[string]bool
 	badLines      int // malformed lines handed to the parser in generation 0 (expected: dropped at the input)
 	badBytes      int
 	overLong      int            // well-formed lines with a message over the limit (expected: passed, cut, counted as overflow)
@@ -167,6 +174,8 @@ type world struct {
 	gen       int
 	envs      []*fakeup.Env
 	envGen    []int
+	envOut    []string // output pair name per scripted upstream
+	nextOut   string
 	lines     []*lineRec
 	trans     []transmit
 	jsonOf    map[string]string // stamp -> decoded record (first delivery)
@@ -241,6 +250,7 @@ func (w *world) decodeStamps(chunk base.LogChunk) (stamps []string, tag string, 
 }
 
 func (w *world) newConsumer(parentLogger logger.Logger, name string, decoder base.ChunkDecoder, args base.ChunkConsumerArgs) base.ChunkConsumer {
+	w.nextOut = name
 	return w.newConsumerWith(parentLogger, decoder, args, nil)
 }
 
@@ -293,12 +303,17 @@ func (w *world) newConsumerWith(parentLogger logger.Logger, decoder base.ChunkDe
 			}
 		}
 		for i, s := range stamps {
-			if prev, ok := w.jsonOf[s]; ok {
+			w.checkContent(s, recs[i])
+			jk := s
+			if idx < len(w.envOut) && w.envOut[idx] != "" && w.p.twoPairs {
+				jk = w.envOut[idx] + "|" + s // outputs may serialize differently; each must be consistent with itself
+			}
+			if prev, ok := w.jsonOf[jk]; ok {
 				if prev != recs[i] {
 					w.violate("record-altered", "record %s was delivered as %s and as %s", s, prev, recs[i])
 				}
 			} else {
-				w.jsonOf[s] = recs[i]
+				w.jsonOf[jk] = recs[i]
 			}
 		}
 	}
@@ -310,15 +325,23 @@ func (w *world) newConsumerWith(parentLogger logger.Logger, decoder base.ChunkDe
 	}
 	w.envs = append(w.envs, env)
 	w.envGen = append(w.envGen, w.gen)
+	w.envOut = append(w.envOut, w.nextOut)
+	w.nextOut = ""
 	mf := w.mfs[len(w.mfs)-1]
-	return baseoutput.NewClientWorker(parentLogger, args, mf.AddOrGetPrefix(fmt.Sprintf("vout%d_", idx), nil, nil), env.Open, 30*time.Minute)
+	return baseoutput.NewClientWorker(parentLogger, args, mf.AddOrGetPrefix(fmt.Sprintf("vout%d_", idx), nil, nil), env.Open, w.sessionMaxAge())
 }
 
-func (w *world) ackedStamps() map[string]bool {
+func (w *world) ackedStamps() map[string]bool { return w.ackedStampsOf("") }
+
+// ackedStampsOf: the records acknowledged by the upstream(s) of one output pair ("" = of any output)
+func (w *world) ackedStampsOf(output string) map[string]bool {
 	out := map[string]bool{}
 	for _, t := range w.trans {
-		for _, e := range w.envs {
+		for ei, e := range w.envs {
 			if e.Opt.Name != t.env {
+				continue
+			}
+			if output != "" && w.envOut[ei] != output {
 				continue
 			}
 			for _, c := range e.Conns {
@@ -358,10 +381,12 @@ func (w *world) chunkFileIDs() map[string]bool {
 }
 
 // diskStamps decodes every chunk file under the queue root.
-func (w *world) diskStamps() (map[string]bool, int) {
+func (w *world) diskStamps() (map[string]bool, int) { return w.diskStampsIn("q") }
+
+func (w *world) diskStampsIn(dir string) (map[string]bool, int) {
 	out := map[string]bool{}
 	files := 0
-	filepath.Walk(filepath.Join(w.root, "q"), func(path string, info os.FileInfo, err error) error {
+	filepath.Walk(filepath.Join(w.root, dir), func(path string, info os.FileInfo, err error) error {
 		if err != nil || info.IsDir() || info.Name() == ".id" {
 			return nil
 		}
@@ -393,9 +418,16 @@ func makeRun(p params) explore.RunFunc {
 		logs.Echo = *flagLogs
 		defs.BufferMaxNumChunksInMemory = p.memCap
 		defs.BufferMaxNumChunksInQueue = 50
+		if p.queueCap > 0 {
+			defs.BufferMaxNumChunksInQueue = p.queueCap
+		}
 		defs.IntermediateBufferMaxNumLogs = 500
 		if p.sinkBatch > 0 {
 			defs.IntermediateBufferMaxNumLogs = p.sinkBatch
+		}
+		defs.ForwarderPingInterval = 20 * time.Second
+		if p.pingInterval > 0 {
+			defs.ForwarderPingInterval = p.pingInterval
 		}
 		defs.ForwarderRetryInterval = 10 * time.Second
 		if p.retryInterval > 0 {
@@ -409,7 +441,11 @@ func makeRun(p params) explore.RunFunc {
 		if p.ackWindow > 0 {
 			defs.ForwarderMaxPendingChunksForAck = p.ackWindow
 		}
-		fluentdforward.VerifSetChunkLimits(p.chunkRecs, 7*1024*1024)
+		if p.chunkBytes > 0 {
+			fluentdforward.VerifSetChunkLimits(p.chunkRecs, p.chunkBytes)
+		} else {
+			fluentdforward.VerifSetChunkLimits(p.chunkRecs, 7*1024*1024)
+		}
 		w := &world{p: p, jsonOf: map[string]string{}}
 		w.root = hutil.ScratchRoot("agentmc")
 		defer os.RemoveAll(w.root)
@@ -423,12 +459,21 @@ func makeRun(p params) explore.RunFunc {
 			tagT = "t.$app"
 		}
 		cfgText := strings.ReplaceAll(strings.ReplaceAll(strings.ReplaceAll(configTemplate, "ROOT", filepath.Join(w.root, "q")), "METRICKEYS", mk), "TAGTEMPLATE", tagT)
+		if p.noDir {
+			// a plain file where the buffer root should be: no queue directory can be created
+			os.WriteFile(filepath.Join(w.root, "blocked"), []byte("x"), 0o644)
+			cfgText = strings.ReplaceAll(cfgText, "rootPath: "+filepath.Join(w.root, "q"), "rootPath: "+filepath.Join(w.root, "blocked", "q"))
+		}
 		if p.singleton {
 			cfgText = strings.Replace(cfgText, "  type: byKeySet\n  keys: [app]\n  tag: "+tagT+"\n", "  type: singleton\n  tag: t.single\n", 1)
 		}
 		if p.twoPairs {
 			i := strings.Index(cfgText, "  - name: out1\n")
-			cfgText += strings.Replace(strings.Replace(cfgText[i:], "name: out1", "name: out2", 1), "rootPath: "+filepath.Join(w.root, "q"), "rootPath: "+filepath.Join(w.root, "q2"), 1)
+			second := strings.Replace(strings.Replace(cfgText[i:], "name: out1", "name: out2", 1), "rootPath: "+filepath.Join(w.root, "q"), "rootPath: "+filepath.Join(w.root, "q2"), 1)
+			// the second output does not hide the source field: its records are bigger, so under a byte limit its chunks are cut
+			// at other records than the first output's
+			second = strings.Replace(second, "hiddenFields: [source]", "hiddenFields: []", 1)
+			cfgText += second
 		}
 		if p.reload != "" {
 			cfgText = strings.ReplaceAll(cfgText, "OUTPUTTYPE", "verifFluentd")
@@ -479,6 +524,63 @@ func badLine(shape string, ci int) string {
 		return fmt.Sprintf("<13>1 2020-01-02T03:04:05.678Z ho\xffst appA 77 src - c%d invalid utf-8 in the header", ci)
 	}
 	panic("harness bug: unknown malformed shape " + shape)
+}
+
+func (w *world) sessionMaxAge() time.Duration {
+	if w.p.sessionMaxAge > 0 {
+		return w.p.sessionMaxAge
+	}
+	return 30 * time.Minute
+}
+
+// feedLine hands a line to the connection's sink the way the listener does: as a slice of a read buffer that is reused
+// (here: overwritten) as soon as the call returns
+func feedLine(sink base.MessageReceiverSink, line string) {
+	buf := make([]byte, len(line))
+	copy(buf, line)
+	sink.Accept(buf)
+	for i := range buf {
+		buf[i] = '#'
+	}
+}
+
+// checkContent compares a delivered record with the line that was sent (not only with its earlier deliveries)
+func (w *world) checkContent(stamp, recJSON string) {
+	var l *lineRec
+	for _, x := range w.lines {
+		if x.stamp == stamp {
+			l = x
+		}
+	}
+	if l == nil {
+		w.violate("record-unknown", "a record with stamp %q was delivered that no connection sent: %s", stamp, clipStr(recJSON, 200))
+		return
+	}
+	var arr []any
+	if json.Unmarshal([]byte(recJSON), &arr) != nil || len(arr) != 3 {
+		return
+	}
+	m, _ := arr[2].(map[string]any)
+	logv, _ := m["log"].(string)
+	want := fmt.Sprintf("%s payload of %s", stamp, stamp)
+	if !strings.HasPrefix(logv, want) || (l.bytes < 1000 && logv != want) {
+		w.violate("record-altered", "record %s was delivered with log=%q, sent %q", stamp, clipStr(logv, 120), want)
+	}
+	if app, _ := m["app"].(string); app != l.app {
+		w.violate("record-altered", "record %s was delivered with app=%q, sent %q", stamp, app, l.app)
+	}
+	if env, ok := m["environment"].(map[string]any); ok {
+		if host, _ := env["host"].(string); host != l.host {
+			w.violate("record-altered", "record %s was delivered with host=%q, sent %q", stamp, host, l.host)
+		}
+	}
+}
+
+func clipStr(s string, n int) string {
+	if len(s) > n {
+		return s[:n] + "..."
+	}
+	return s
 }
 
 func syslogLine(host, app, source, stamp string) string {
@@ -562,7 +664,7 @@ func drive(w *world) explore.Verdict {
 							lr := &lineRec{gen: g, conn: ci, seq: seqn, app: o.app, host: host, source: source, stamp: stamp, drop: o.drop, bytes: len(line)}
 							w.lines = append(w.lines, lr)
 							vsched.Note("conn%d line %s app=%s drop=%v", ci, stamp, o.app, o.drop)
-							sink.Accept([]byte(line))
+							feedLine(sink, line)
 							lr.accepted = true
 							if p.flushAlt && vsched.Choose(2, "flush-after-line") == 1 {
 								vsched.Note("conn%d flush tick", ci)
@@ -574,7 +676,7 @@ func drive(w *world) explore.Verdict {
 							w.badLines++
 							w.badBytes += len(line)
 							vsched.Note("conn%d malformed line (%s)", ci, o.shape)
-							sink.Accept([]byte(line))
+							feedLine(sink, line)
 						case "overlong":
 							seqn++
 							stamp := fmt.Sprintf("c%dr%d", ci, seqn)
@@ -583,7 +685,7 @@ func drive(w *world) explore.Verdict {
 							w.lines = append(w.lines, lr)
 							w.overLong++
 							vsched.Note("conn%d over-long line %s", ci, stamp)
-							sink.Accept([]byte(line))
+							feedLine(sink, line)
 							lr.accepted = true
 						case "flush":
 							sink.Flush()
@@ -646,6 +748,11 @@ func drive(w *world) explore.Verdict {
 		// goroutines still saving chunks after that moment do not count
 		w.ackedAtReturn = w.ackedStamps()
 		w.diskAtReturn, w.filesAtReturn = w.diskStamps()
+		if p.twoPairs {
+			w.ackedAtReturn = w.ackedStampsOf("out1")
+			w.ackedAtReturn2 = w.ackedStampsOf("out2")
+			w.diskAtReturn2, _ = w.diskStampsIn("q2")
+		}
 		vsched.Idle()
 		w.checkAtStop(g, last)
 	}
@@ -733,7 +840,7 @@ func driveReload(w *world) explore.Verdict {
 				lr := &lineRec{conn: ci, seq: seqn, app: o.app, host: "host1", source: "src", stamp: stamp, bytes: len(line)}
 				w.lines = append(w.lines, lr)
 				vsched.Note("conn%d line %s app=%s", ci, stamp, o.app)
-				sink.Accept([]byte(line))
+				feedLine(sink, line)
 				lr.accepted = true
 				if vsched.Choose(2, "flush-after-line") == 1 {
 					sink.Flush()
@@ -879,6 +986,29 @@ func (w *world) allDelivered() bool {
 	return true
 }
 
+// bufferDropped reads the buffers' dropped-chunk counters of one generation.
+func (w *world) bufferDropped(g int) int {
+	if g >= len(w.loaders) {
+		return 0
+	}
+	var m map[string]float64
+	if gs, ok := w.loaders[g].GetMetricGatherer().(prometheus.Gatherers); ok && len(gs) > 0 {
+		m = hutil.Metrics(gs[len(gs)-1])
+	} else {
+		m = hutil.Metrics(w.loaders[g].GetMetricGatherer())
+	}
+	return int(hutil.Sum(m, fmt.Sprintf("g%d_process_buffer_dropped_chunks_total", g)))
+}
+
+// droppedTotal: drops counted in all generations up to g (a record lost in an earlier generation stays lost)
+func (w *world) droppedTotal(g int) int {
+	n := 0
+	for i := 0; i <= g; i++ {
+		n += w.bufferDropped(i)
+	}
+	return n
+}
+
 // checkAtStop applies the oracles of the selected property at the end of a generation.
 func (w *world) checkAtStop(g int, last bool) {
 	acked, disk, files := w.ackedAtReturn, w.diskAtReturn, w.filesAtReturn
@@ -907,13 +1037,43 @@ func (w *world) checkAtStop(g int, last bool) {
 				w.violate("record-only-in-memory", "when the shutdown of generation %d returns, record %s is neither acknowledged nor in a chunk file although a queue directory is available", g, l.stamp)
 			}
 			if w.p.prop == "C01" || w.p.prop == "" {
-				w.violate("record-lost", "after the graceful stop of generation %d record %s (connection %d, app %s) is neither acknowledged by the upstream nor in a chunk file of the on-disk queue", g, l.stamp, l.conn, l.app)
+				if w.p.queueCap > 0 && nLost <= w.droppedTotal(g)*w.p.chunkRecs {
+					// a documented queue overflow, counted in the dropped-chunk metric
+					continue
+				}
+				w.violate("record-lost", "after the graceful stop of generation %d record %s (connection %d, app %s) is neither acknowledged by the upstream nor in a chunk file of the on-disk queue (dropped_chunks_total so far: %d)", g, l.stamp, l.conn, l.app, w.droppedTotal(g))
 			}
+		}
+	}
+	if w.p.twoPairs && (w.p.prop == "C01" || w.p.prop == "C18") {
+		// "for each configured output": the same for the second output pair
+		for _, l := range w.lines {
+			if l.accepted && !l.drop && !w.ackedAtReturn2[l.stamp] && !w.diskAtReturn2[l.stamp] {
+				nLost++
+				w.violate("record-lost:second-output", "after the graceful stop of generation %d record %s is neither acknowledged by the upstream of output out2 nor in a chunk file of its queue", g, l.stamp)
+			}
+		}
+		if last {
+			for _, l := range w.lines {
+				if l.accepted && !l.drop && !w.ackedAtReturn2[l.stamp] {
+					w.violate("not-delivered-at-end:second-output", "record %s was never acknowledged by the upstream of output out2", l.stamp)
+				}
+			}
+		}
+	}
+	if w.p.prop == "C01" {
+		// discards are permitted only as documented queue / disk-limit overflows: no scenario but the overflow ones comes near
+		// a limit (queue capacity 50, size limit 200 KB against a few hundred bytes)
+		if dropped := w.bufferDropped(g); dropped > 0 && w.p.queueCap == 0 && !w.p.noDir {
+			w.violate("unjustified-drop", "generation %d: buffer dropped_chunks_total = %d although neither the queue capacity (50 chunks) nor the size limit (200 KB) was near", g, dropped)
 		}
 	}
 	if last && (w.p.prop == "C01" || w.p.prop == "") {
 		for _, l := range w.lines {
 			if l.accepted && !l.drop && !acked[l.stamp] {
+				if w.p.queueCap > 0 && nLost <= w.droppedTotal(g)*w.p.chunkRecs {
+					continue
+				}
 				w.violate("not-delivered-at-end", "record %s was never acknowledged although the last generation ran against a healthy upstream to the drain horizon", l.stamp)
 			}
 		}
@@ -1295,6 +1455,44 @@ func scenarios(prop string) []*explore.Scenario {
 		// the backlog variant: mixed saved / unsaved leftovers are resent inside the generation
 		rb := params{name: "backlog-then-new-traffic/retry-within-generation", conns: [][]op{{L("appA"), L("appA"), L("appB")}}, conns1: [][]op{{L("appA"), L("appB")}}, gens: 3, chunkRecs: 1, memCap: 2, gen0Down: true, opt: full, retryInterval: 300 * time.Millisecond, idleBeforeStop: 2 * time.Second, advances: 1}
 		add(rb, 1, 2)
+	}
+	if prop == "C01" || prop == "C18" || prop == "C19" {
+		// soft reconnects: sessions older than one second are ended softly while ACKs fail / stay out
+		sr := params{name: "2conn-3rec/soft-reconnect", conns: [][]op{{L("appA"), L("appB")}, {L("appA")}}, gens: 2, chunkRecs: 1, memCap: 2, opt: full, sessionMaxAge: time.Second, retryInterval: 300 * time.Millisecond, idleBeforeStop: 3 * time.Second, advances: 1}
+		add(sr, 1, 2)
+		// the first ACK read fails by script (not charged): the resend stage is entered at cost 0, one more fault fits the bound
+		fr := full
+		fr.FirstAckReset = true
+		f2 := params{name: "1conn-4rec-1key/first-ack-reset/retry-within-generation", conns: [][]op{{L("appA"), L("appA"), L("appA"), L("appA")}}, gens: 2, chunkRecs: 1, memCap: 4, opt: fr, retryInterval: 300 * time.Millisecond, idleBeforeStop: 2 * time.Second, advances: 1}
+		add(f2, 1, 2)
+		// pings on an idle session, failing or not
+		pg := full
+		pg.PingAlt = 2
+		pp := params{name: "2conn-3rec/pings", conns: [][]op{{L("appA"), L("appB")}, {L("appA")}}, gens: 2, chunkRecs: 1, memCap: 2, opt: pg, pingInterval: 400 * time.Millisecond, retryInterval: 300 * time.Millisecond, idleBeforeStop: 2 * time.Second, advances: 1}
+		add(pp, 1, 2)
+	}
+	if prop == "C01" || prop == "C18" {
+		// the singleton orchestrator (one pipeline for all key sets)
+		sg := params{name: "singleton/2conn-3rec/restart", conns: [][]op{{L("appA"), L("appB")}, {L("appA")}}, gens: 2, chunkRecs: 1, memCap: 2, opt: full, flushAlt: true, singleton: true, advances: 1}
+		add(sg, 1, 2)
+		sb := params{name: "singleton/batch-boundary", conns: [][]op{{L("appA"), L("appB"), L("appA"), L("appB"), L("appA")}}, gens: 2, chunkRecs: 1, memCap: 2, opt: full, flushAlt: true, singleton: true, sinkBatch: 2, advances: 1}
+		add(sb, 1, 2)
+		// two output/buffer pairs: every record is owed to each output
+		tp := params{name: "two-outputs/2conn-3rec/restart", conns: [][]op{{L("appA"), L("appB")}, {L("appA")}}, gens: 2, chunkRecs: 2, memCap: 2, opt: full, flushAlt: true, twoPairs: true, advances: 1}
+		add(tp, 1, 2)
+		// ... and with a byte limit that two records of the first output fit but two of the second do not: at a flush one
+		// output has nothing buffered while the other holds a partial chunk
+		tb := params{name: "two-outputs/byte-limit/1conn-5rec", conns: [][]op{{L("appA"), L("appA"), L("appA"), L("appA"), L("appA")}}, gens: 2, chunkRecs: 100, chunkBytes: 250, memCap: 2, opt: full, flushAlt: true, twoPairs: true, advances: 1}
+		add(tb, 1, 2)
+		// no usable queue directory and a healthy upstream: everything is acknowledged when the shutdown returns
+		nd := params{name: "nodir/healthy/2conn-3rec", conns: [][]op{{L("appA"), L("appB")}, {L("appA")}}, gens: 2, chunkRecs: 2, memCap: 2, opt: fakeup.Options{}, flushAlt: true, noDir: true, advances: 1}
+		add(nd, 1, 2)
+	}
+	if prop == "C01" || prop == "C19" {
+		// documented discard: the queue capacity (2 chunks) overflows while the upstream is down; every lost record is
+		// covered by the dropped-chunk counter
+		ovf := params{name: "queue-overflow/1conn-6rec-1key", conns: [][]op{{L("appA"), L("appA"), L("appA"), L("appA"), L("appA"), L("appA")}}, gens: 3, chunkRecs: 1, memCap: 0, gen0Down: true, queueCap: 2, opt: full, advances: 1}
+		add(ovf, 1, 2)
 	}
 	if prop == "C06" {
 		// routing and tagging in the composed agent with pooled-size records of two key sets: the pipeline's tag and ID must
